@@ -906,8 +906,14 @@ func (c *Client) q(m *spb.ModifyRequest) {
 	c.awaiting.RLock()
 	defer c.awaiting.RUnlock()
 
-	if !chIsClosed(c.sendExitCh) {
-		c.qs.modifyCh <- m
+	if chIsClosed(c.sendExitCh) {
+		return
+	}
+	select {
+	case c.qs.modifyCh <- m:
+	case <-c.sendExitCh:
+		// The sender exited whilst we were waiting for space in the channel,
+		// nothing will read from it any more.
 	}
 }
 
